@@ -64,9 +64,9 @@ type heldStream struct {
 	done       chan struct{}
 }
 
-func TestVerif_C13_Modes(t *testing.T) {
+func c13Check() verifsim.Check[modeSc] {
 	const proto1 = protocol.ID("/sim/kad/1.0.0")
-	verifsim.RunCheck(t, verifsim.Check[modeSc]{
+	return verifsim.Check[modeSc]{
 		Property: "C13", Part: "modes",
 		Rule: "rapid: mode option in {auto, client, server, auto-server} x 1-14 events: local-reachability changes {unknown, public, private} on the real event bus (singly or in bursts of 2-4 events 0-400 ms apart), address-set updates (public / private addresses kept and removed), opening inbound streams (connection listed by the network or not), " +
 			"requests on new streams and on streams opened earlier; at every quiescent point the behaviour must equal f(option, last reachability event): in client mode no handler is registered, every listed inbound stream has been reset, a request on any " +
@@ -263,5 +263,10 @@ func TestVerif_C13_Modes(t *testing.T) {
 			res.Class(fmt.Sprintf("mode-%d", sc.Mode))
 			return
 		},
-	})
+	}
 }
+
+func TestVerif_C13_Modes(t *testing.T) { verifsim.RunCheck(t, c13Check()) }
+
+// the same generator and oracle driven by Go's coverage-guided fuzzer (thorough tier)
+func FuzzVerif_C13_Modes(f *testing.F) { verifsim.RunFuzz(f, c13Check(), "TestVerif_C13_Modes") }
